@@ -381,6 +381,40 @@ for i in range(max(6, nseq // 10)):
     elif f.structure != seq.labile_formula.structure or f.density != seq.labile_formula.density:
         fail("C18:prefix:%s" % ty, "formula(%r) is not Sequence(None, %r, type=%r).labile_formula" % (short(s), short(body), ty),
              formula=s)
+# the same prefixed string evaluated again after the first result was used: extended in place (the documentation adds
+# the chain terminations with +=), given a density, or asked for with another table - it is still the sequence's formula
+stats["prefix_histories"] = 0
+try:
+    from periodictable import core as _core, mass as _mass
+    _priv = _core.PeriodicTable("c18private")
+    _mass.init(_priv)
+except Exception:  # noqa
+    _priv = None
+for i in range(6):
+    ty = TYPES[i % 3]
+    body = random_codes(ty, rng.choice([1, 3, 8]), "plain")
+    s = ty + ":" + body
+    seq = make(None, body, ty)
+    if isinstance(seq, BaseException):
+        continue
+    try:
+        f1 = formula(s)
+        how = rng.choice(["iadd", "density", "table"]) if _priv is not None else rng.choice(["iadd", "density"])
+        if how == "iadd":
+            f1 += formula("H[1]2O"); txt = "f = formula(%r); f += formula('H[1]2O')" % s
+        elif how == "density":
+            f1.density = 9.75; txt = "f = formula(%r); f.density = 9.75" % s
+        else:
+            formula(s, table=_priv); txt = "formula(%r, table=private)" % s
+        f2 = formula(s)
+    except Exception as e:  # noqa
+        fail("C18:prefix:%s" % ty, "%s; formula(%r) raised %s: %s" % (txt if "txt" in dir() else s, s, type(e).__name__, e), formula=s)
+        continue
+    stats["prefix_histories"] += 1
+    ref = seq.labile_formula
+    if f2.structure != ref.structure or f2.density != ref.density or any(getattr(a, "table", "public") != "public" for a in f2.atoms):
+        fail("C18:prefix-history:%s" % how, "%s; then formula(%r) is %s @ %r with atoms of %s, Sequence(None, %r, type=%r).labile_formula is %s @ %r"
+             % (txt, s, f2, f2.density, sorted(set(getattr(a, "table", "public") for a in f2.atoms)), body, ty, ref, ref.density), formula=s)
 for s in ["aa:", "dna:", "rna:*", "aa:A:C", "aa:a", "dna:AE", "rna:AZ", "aa:AO", "aa:A\tC", "AA:AC", "aa :AC", " aa:AC", "x:y",
           "Aa:G", "dna:ACGT ACGT*TTTT", "H2O", "", "C3H4H[1]NO"]:
     add_prefix(s)
